@@ -65,6 +65,12 @@ CLAIMED = {
   "technique": "Lean 4 proof (corollaries of the walk characterisation) + model-vs-implementation correspondence + differential oracle (segment vs original vs direct build)",
   "design_ref": "4 C18",
  },
+ "C19": {
+  "text": "Lean 4 model of successive ModuleGraph::build calls and ModuleGraph::reload (a fresh builder per call over the persisted slots, redirects, roots and configured imports), tied to /repo by exact correspondence after every step of generated histories (every ordered split of 2-4 roots into 1-3 builds, a repeated build, 1-2 edit+reload steps). Proved for every world and history: building again with roots and imports the graph already has makes no loader call and returns the graph unchanged (build_idem); every incremental build and every reload that finishes leaves no pending entry when it started from a graph without one; reload takes each specifier through the recorded redirects first. Convergence to the from-scratch graph is decided on every run on the implementation: incremental vs at-once, reload vs from-scratch on the new sources (everything the scratch build contains must be identical, everything else untouched); in histories without a known-defect trigger equality must hold exactly.",
+  "note": "build_split / reload_converges are not Lean theorems: the statement is false of the code in identified situations (F6, F18, F20, reproduced and listed); histories with configured imports or a dynamic root are used for correspondence only. JSR restart behaviour (cache busting) is outside this model.",
+  "technique": "Lean 4 executable model of build/reload histories with exact correspondence + Lean proofs (idempotence, no-pending across calls) + differential oracle against from-scratch builds",
+  "design_ref": "4 C19",
+ },
 }
 NOT_APPLICABLE = {}
 ALL = [f"C{i:02d}" for i in range(1, 21)]
